@@ -51,6 +51,8 @@ def gen_routing(tier, wd, seed):
         runs.append(dict(base, EMIN=4, EMAX=4, NSAMP=3, STRIDE=40, OFFSET=rnd.randrange(40)))
         runs.append(dict(base, MODE='"cat"', EMIN=1, EMAX=7, LMAX=5, NSAMP=25, WSET={4, 5, 6, 8, 10}))
         runs.append(dict(base, MODE='"rand"', V=4, EMIN=5, EMAX=6, LMAX=4, NSK=40, NSAMP=12, WSET={5, 6, 8, 10}, PK=1))
+        # 4- and 5-loop topologies need heavy weights to be accepted: a dedicated draw so that they are always present
+        runs.append(dict(base, MODE='"cat"', EMIN=5, EMAX=7, LMIN=4, LMAX=5, NSAMP=80, WSET={8, 10, 12, 14}, DSET={1, 2, 3, 4, 5}))
     else:
         runs.append(dict(base, V=2, EMAX=4, NSAMP=40))
         runs.append(dict(base, EMIN=2, EMAX=3, NSAMP=20))
@@ -58,6 +60,7 @@ def gen_routing(tier, wd, seed):
         runs.append(dict(base, V=4, EMIN=5, EMAX=5, NSAMP=4, STRIDE=400, OFFSET=rnd.randrange(400)))
         runs.append(dict(base, MODE='"cat"', EMIN=1, EMAX=7, LMAX=5, NSAMP=400, WSET={4, 5, 6, 8, 10}))
         runs.append(dict(base, MODE='"rand"', V=5, EMIN=5, EMAX=7, LMAX=5, NSK=600, NSAMP=12, WSET={5, 6, 8, 10}, PK=1))
+        runs.append(dict(base, MODE='"cat"', EMIN=5, EMAX=7, LMIN=4, LMAX=5, NSAMP=800, WSET={8, 10, 12, 14}, DSET={1, 2, 3, 4, 5, 6}))
     st = 0
     for i, c in enumerate(runs):
         r = core.tlc("Gen_Routing", core.cfg_text(constants=c, invariants=["Emit"]), "gen_routing_%d" % i, wd, workers=12,
@@ -66,6 +69,9 @@ def gen_routing(tier, wd, seed):
     n = core.count_lines(path)
     if n < 100:
         raise core.ToolError("vacuity guard: Gen_Routing emitted only %d lines" % n)
+    n5 = sum(1 for l in open(path) if '"L":5' in l)
+    if n5 < 3:
+        raise core.ToolError("vacuity guard: only %d five-loop lines" % n5)
     return path, runs, st, n
 
 
